@@ -126,6 +126,7 @@ ADDENDA = {
  "C06": (" A sub-protocol in which sender and receiver wait for each other is an outcome (stall), and the outputs of earlier batches are re-validated after later batches on the same instance.", ""),
  "C07": (" Arith.tla also defines array index (the documented low-bits rule), logical and/or and bit tests with a constant bit number; complete tables for arrays of 1..6 (8) elements.", ""),
  "C08": (" Histories include a program that fails to compile after imported packages were instantiated and a program importing several packages with package-level variables.", ""),
+ "C10": (" GmwNet.tla (formation of the network: online/offline connection per pair, sequential accept loops, leader phases, peer list; Complete/NoError/ListComplete/termination) model-checked for 2-5 parties; every real run inspects the connection table when Connect returns (tagged accessor), runs further circuits on the used network and counts a crash of a library goroutine as an outcome.", ""),
  "C11": (" The library's own in-memory transport p2p.Pipe is exercised with an early Close and a late, slow reader.", ""),
  "C13": (" Also: string results and arrays of strings/booleans (IOEnc.tla StrWires/StrChars), circuit.Sizes (size inference from Go values: sufficient, equal to the textual form, read back), mpc.Results.", ""),
  "C15": (" The outputs of earlier accepted batches are re-validated after later Sends on the same sender.", ""),
